@@ -84,7 +84,7 @@ func (p *printer) sep() string {
 	if !p.noise {
 		return " "
 	}
-	switch p.rnd.Intn(8) {
+	switch p.rnd.Intn(10) {
 	case 0:
 		return "  "
 	case 1:
@@ -95,6 +95,10 @@ func (p *printer) sep() string {
 		return " \n "
 	case 4:
 		return " /**/ "
+	case 5:
+		return "/**/" // a comment with nothing around it (directly after an operator such as / or *, directly before one)
+	case 6:
+		return "/* c */"
 	}
 	return " "
 }
